@@ -20,6 +20,7 @@ Three parts, all re-run on every check from /repo's current files:
                               unless the key is an open known finding, then as a proved `= false` witness)
     and written to lean/SarpyModel/Gen/XsdPairs.lean.
 """
+import ast
 import hashlib
 import importlib
 import inspect
@@ -29,6 +30,7 @@ import os
 import pkgutil
 import re
 import sys
+import textwrap
 
 from lxml import etree
 
@@ -785,7 +787,8 @@ def array_overrides(ext):
 
 class Row:
     """one entry of _fields as Serializable.to_node / from_node treat it"""
-    __slots__ = ('field', 'tag', 'kind', 'required', 'cls', 'child_tag', 'nskey', 'attr_nskey', 'size_attr', 'descr', 'ext')
+    __slots__ = ('field', 'tag', 'kind', 'required', 'cls', 'child_tag', 'nskey', 'attr_nskey', 'size_attr', 'descr', 'ext',
+                 'when', 'hidden', 'write_self')
 
     def __init__(self, **kw):
         for k in self.__slots__:
@@ -807,7 +810,12 @@ def class_rows(cls):
          array     SerializableArrayDescriptor                -> one child `tag` (attribute size) holding `child_tag` children of class cls
          farray    FloatArrayDescriptor                       -> one child `tag` (attribute size) holding `child_tag` text children with index
          params    ParametersDescriptor                       -> any number of `child_tag` children with attribute name
-         other     plain property / unknown descriptor        -> outside the fragment"""
+         propstored  Python property WITH a setter             -> at most one child element `tag` (read by the generic from_node,
+                                                                 handed to the setter, written back by the generic to_node)
+         derived   READ-ONLY Python property                  -> nothing is read; to_node writes getattr(self, field) when it is not
+                                                                 None.  `when` = the fields on whose presence the value depends
+                                                                 ([] = never None), read off the getter's AST
+         other     anything else                              -> outside the fragment"""
     from sarpy.io.xml import descriptors as D
     rows = []
     for f in cls._fields:
@@ -842,9 +850,558 @@ def class_rows(cls):
             rows.append(Row(kind='complex', **common))
         elif isinstance(d, D.BasicDescriptor):
             rows.append(Row(kind='prim', **common))
+        elif isinstance(d, property) and d.fset is not None and f not in cls._set_as_attribute:
+            how, pcls = propstored_child(cls, d)
+            common['descr'] = 'property'
+            if how == 'class':
+                rows.append(Row(kind='child', cls=pcls, **common))        # the setter hands the node to parse_serializable(.., pcls)
+            elif how == 'leaf':
+                rows.append(Row(kind='prim', **common))                   # the setter takes the node's text
+            else:
+                rows.append(Row(kind='propstored', **common))             # stored, but by code the translator does not follow: subtree opaque
+        elif isinstance(d, property) and d.fset is None and f not in cls._set_as_attribute:
+            when = derived_when(cls, f, d)
+            if when is None:
+                rows.append(Row(kind='other', **common))
+            else:
+                rows.append(Row(kind='derived', when=when, **common))
         else:
             rows.append(Row(kind='other', **common))
     return rows
+
+
+def _fn_ast(fn):
+    """ast.FunctionDef of a Python function (None when the source is not available)"""
+    try:
+        src = textwrap.dedent(inspect.getsource(fn))
+        mod = ast.parse(src)
+    except (OSError, TypeError, SyntaxError, IndentationError):
+        return None
+    for n in mod.body:
+        if isinstance(n, (ast.FunctionDef, ast.AsyncFunctionDef)):
+            return n
+    return None
+
+
+def propstored_child(cls, prop):
+    """what the setter of a stored property does with the ElementTree node the generic from_node hands it:
+       ('class', C)  it calls parse_serializable(value, name, self, C)            -> the child is read by class C
+       ('leaf', None) it takes get_node_value(value) / parse_float|int|str|bool|datetime(value, ...)  -> a text element
+       ('opaque', None) anything else"""
+    from sarpy.io.xml.base import Serializable
+    fn = _fn_ast(prop.fset)
+    if fn is None:
+        return 'opaque', None
+    found_cls, leaf = set(), False
+    for b in cls.__mro__:
+        if b.__dict__.get(prop.fget.__name__) is prop:
+            mod = sys.modules.get(b.__module__)
+            break
+    else:
+        mod = sys.modules.get(cls.__module__)
+    for n in ast.walk(fn):
+        if isinstance(n, ast.Call) and isinstance(n.func, ast.Name):
+            if n.func.id == 'parse_serializable' and len(n.args) >= 4 and isinstance(n.args[3], ast.Name):
+                x = getattr(mod, n.args[3].id, None)
+                if inspect.isclass(x) and issubclass(x, Serializable):
+                    found_cls.add(x)
+            elif n.func.id in ('get_node_value', 'parse_float', 'parse_int', 'parse_str', 'parse_bool', 'parse_datetime', 'parse_complex'):
+                leaf = True
+    if len(found_cls) == 1 and not leaf:
+        return 'class', found_cls.pop()
+    if leaf and not found_cls:
+        return 'leaf', None
+    return 'opaque', None
+
+
+def derived_when(cls, field, prop):
+    """for a read-only property: the `_fields` entries on whose presence its value depends, [] when the getter never returns
+    None, None when the getter is not understood (the row is then outside the fragment).  Read off the getter's AST:
+    a getter without `return None` (and without a bare `return`) always yields a value; otherwise the fields it mentions as
+    self.F / self._F / through self._choice decide."""
+    fn = _fn_ast(prop.fget)
+    if fn is None:
+        return None
+    returns_none = False
+    names = set()
+    uses_choice = False
+    for n in ast.walk(fn):
+        if isinstance(n, ast.Return) and (n.value is None or (isinstance(n.value, ast.Constant) and n.value.value is None)):
+            returns_none = True
+        if isinstance(n, ast.Attribute) and isinstance(n.value, ast.Name) and n.value.id == 'self':
+            if n.attr == '_choice':
+                uses_choice = True
+            names.add(n.attr.lstrip('_'))
+    if not any(isinstance(n, ast.Return) for n in ast.walk(fn)):
+        return None
+    if not returns_none:
+        return []
+    when = [f for f in cls._fields if f in names and f != field]
+    if uses_choice:
+        for ch in getattr(cls, '_choice', ()):
+            when += [f for f in ch.get('collection', ()) if f not in when]
+    return when or None
+
+
+# ------------------------------------------------------------------- part B2: classes that override to_node / from_node
+
+class Unrecognised(Exception):
+    pass
+
+
+def _defining(cls, meth):
+    from sarpy.io.xml.base import Serializable
+    for b in cls.__mro__:
+        if b is Serializable:
+            return None
+        if meth in b.__dict__:
+            return b
+    return None
+
+
+def _is_name(n, name):
+    return isinstance(n, ast.Name) and n.id == name
+
+
+def _const_str(n):
+    return n.value if isinstance(n, ast.Constant) and isinstance(n.value, str) else None
+
+
+def _is_super_call(n, meth):
+    """super(...).meth(...) or super().meth(...)"""
+    return (isinstance(n, ast.Call) and isinstance(n.func, ast.Attribute) and n.func.attr == meth and
+            isinstance(n.func.value, ast.Call) and _is_name(n.func.value.func, 'super'))
+
+
+def _str_tuple(n):
+    if isinstance(n, ast.Tuple) and all(_const_str(e) is not None for e in n.elts):
+        return [e.value for e in n.elts]
+    return None
+
+
+def _only_names(n, allowed):
+    return all(x.id in allowed for x in ast.walk(n) if isinstance(x, ast.Name))
+
+
+def _body(fn):
+    body = list(fn.body)
+    if body and isinstance(body[0], ast.Expr) and isinstance(body[0].value, ast.Constant) and isinstance(body[0].value.value, str):
+        body = body[1:]
+    return body
+
+
+def recognise_from_node(cls):
+    """the from_node override of `cls` as (read_lists {kwargs key: tag}, divert_if [tags], divert_unless [tags], notes), if it has
+    one of the stereotyped shapes (everything else raises Unrecognised):
+        if kwargs is None: kwargs = ...                                      prelude
+        K = cls._child_xml_ns_key.get('X', ns_key)                           namespace key of a child
+        P = find_first_child(node, 'TAG', xml_ns, K)                         probe for a child
+        kwargs['F'] = find_children(node, 'TAG', xml_ns, K)                  a list read by hand (hidden row, or a row of _fields)
+        if P is not None: ...                                                legacy path taken when TAG is present  -> divert_if
+        if P is None: ... return ...   [else: return super().from_node()]    legacy path taken when TAG is absent   -> divert_unless
+        tests / raises / logging that mention only ns_key, xml_ns            namespace gate (outside the model)
+        return super(C, cls).from_node(node, xml_ns, ns_key=ns_key, kwargs=kwargs)"""
+    b = _defining(cls, 'from_node')
+    if b is None:
+        return {}, [], [], []
+    f = b.__dict__['from_node']
+    fn = _fn_ast(getattr(f, '__func__', f))
+    if fn is None:
+        raise Unrecognised('from_node: source not available')
+    probes, read_lists, dif, dun, notes = {}, {}, [], [], []
+    NS = {'ns_key', 'xml_ns', 'valid_ns', 'logger', 'validate_xml_ns', 'ValueError'}
+
+    def is_super_return(st):
+        if not (isinstance(st, ast.Return) and _is_super_call(st.value, 'from_node')):
+            return False
+        c = st.value
+        ok = len(c.args) >= 2 and _is_name(c.args[0], 'node') and _is_name(c.args[1], 'xml_ns')
+        kw = {k.arg: k.value for k in c.keywords}
+        return ok and _is_name(kw.get('ns_key'), 'ns_key') and _is_name(kw.get('kwargs'), 'kwargs')
+
+    def probe_test(t):
+        """(probe var, 'present'|'absent') for `P is not None` / `P is None`"""
+        if isinstance(t, ast.Compare) and len(t.ops) == 1 and isinstance(t.left, ast.Name) and t.left.id in probes and \
+                isinstance(t.comparators[0], ast.Constant) and t.comparators[0].value is None:
+            if isinstance(t.ops[0], ast.IsNot):
+                return t.left.id, 'present'
+            if isinstance(t.ops[0], ast.Is):
+                return t.left.id, 'absent'
+        return None
+
+    def has_return(stmts):
+        return any(isinstance(n, ast.Return) for st in stmts for n in ast.walk(st))
+
+    body = _body(fn)
+    done = False
+    for st in body:
+        if done:
+            raise Unrecognised('from_node: statements after the delegating return')
+        if isinstance(st, ast.If) and isinstance(st.test, ast.Compare) and _is_name(st.test.left, 'kwargs') and not st.orelse and \
+                len(st.body) == 1 and isinstance(st.body[0], ast.Assign) and _is_name(st.body[0].targets[0], 'kwargs'):
+            continue                                                            # kwargs prelude
+        if isinstance(st, ast.Assign) and len(st.targets) == 1 and isinstance(st.targets[0], ast.Name) and isinstance(st.value, ast.Call):
+            c = st.value
+            if isinstance(c.func, ast.Attribute) and c.func.attr == 'get' and isinstance(c.func.value, ast.Attribute) and \
+                    c.func.value.attr == '_child_xml_ns_key':
+                continue                                                        # namespace key
+            if _is_name(c.func, 'find_first_child') and len(c.args) >= 2 and _is_name(c.args[0], 'node') and _const_str(c.args[1]):
+                probes[st.targets[0].id] = c.args[1].value
+                continue
+            if _only_names(c, NS):
+                notes.append('namespace gate')
+                continue
+        if isinstance(st, ast.Assign) and len(st.targets) == 1 and isinstance(st.targets[0], ast.Subscript) and \
+                _is_name(st.targets[0].value, 'kwargs') and _const_str(st.targets[0].slice) and isinstance(st.value, ast.Call) and \
+                _is_name(st.value.func, 'find_children') and len(st.value.args) >= 2 and _is_name(st.value.args[0], 'node') and \
+                _const_str(st.value.args[1]):
+            read_lists[st.targets[0].slice.value] = st.value.args[1].value
+            continue
+        if isinstance(st, ast.If):
+            pt = probe_test(st.test)
+            if pt is not None:
+                var, how = pt
+                if how == 'present':
+                    dif.append(probes[var])
+                    if st.orelse:
+                        if len(st.orelse) == 1 and is_super_return(st.orelse[0]) and has_return(st.body):
+                            done = True
+                            continue
+                        raise Unrecognised('from_node: else branch of the legacy test is not the delegating return')
+                    continue
+                if has_return(st.body):
+                    dun.append(probes[var])
+                    if st.orelse:
+                        if len(st.orelse) == 1 and is_super_return(st.orelse[0]):
+                            done = True
+                            continue
+                        raise Unrecognised('from_node: else branch of the legacy test is not the delegating return')
+                    continue
+            if _only_names(st.test, NS) and all(_only_names(x, NS | {'cls', 'node', 'kwargs'} | {n for n in b.__module__.split('.')} | _class_names(b))
+                                                for x in st.body + st.orelse):
+                notes.append('namespace gate')
+                continue
+            raise Unrecognised('from_node: unrecognised test at line %d' % st.lineno)
+        if is_super_return(st):
+            done = True
+            continue
+        raise Unrecognised('from_node: unrecognised statement at line %d' % st.lineno)
+    if not done:
+        raise Unrecognised('from_node: no delegating return')
+    return read_lists, dif, dun, notes
+
+
+def _class_names(b):
+    """names of classes visible in the module of b (other versions' root classes a namespace gate may dispatch to)"""
+    mod = sys.modules.get(b.__module__)
+    return {k for k, v in vars(mod).items() if inspect.isclass(v)} if mod is not None else set()
+
+
+def recognise_to_node(cls):
+    """the to_node override of `cls` as (excluded fields, emissions [('list', attr, tag|None=own tag) | ('single', field, tag)]):
+        exclude = exclude + ('F', ...)
+        node = super(C, self).to_node(doc, tag, ns_key=ns_key, parent=parent, ..., exclude=exclude [+ ('F', ...)])
+        K = self._child_xml_ns_key.get('X', ns_key)
+        [if self._F is not None and len(self._F) > 0:]  for entry in self._F: entry.to_node(doc, 'TAG' | tag, ..., parent=node, ...)
+        if self.F is not None [and 'F' not in exclude]: self.F.to_node(doc, 'TAG', ..., parent=node, ...)
+        return node"""
+    b = _defining(cls, 'to_node')
+    if b is None:
+        return set(), []
+    fn = _fn_ast(b.__dict__['to_node'])
+    if fn is None:
+        raise Unrecognised('to_node: source not available')
+    excl, emis = set(), []
+    node_var = [None]
+
+    def excl_expr(n):
+        """`exclude` or `exclude + (...)`"""
+        if _is_name(n, 'exclude'):
+            return []
+        if isinstance(n, ast.BinOp) and isinstance(n.op, ast.Add) and _is_name(n.left, 'exclude') and _str_tuple(n.right) is not None:
+            return _str_tuple(n.right)
+        return None
+
+    def child_call(c, recv_ok):
+        """X.to_node(doc, TAG, ..., parent=node, ...) -> tag (None = own tag)"""
+        if not (isinstance(c, ast.Call) and isinstance(c.func, ast.Attribute) and c.func.attr == 'to_node' and recv_ok(c.func.value)):
+            return False
+        kw = {k.arg: k.value for k in c.keywords}
+        if len(c.args) < 2 or not _is_name(c.args[0], 'doc') or not _is_name(kw.get('parent'), node_var[0]):
+            return False
+        if _const_str(c.args[1]) is not None:
+            return c.args[1].value
+        if _is_name(c.args[1], 'tag'):
+            return None
+        return False
+
+    def self_attr(n):
+        return n.attr if isinstance(n, ast.Attribute) and _is_name(n.value, 'self') else None
+
+    def list_loop(st):
+        if isinstance(st, ast.For) and isinstance(st.target, ast.Name) and self_attr(st.iter) and len(st.body) == 1 and \
+                isinstance(st.body[0], ast.Expr) and not st.orelse:
+            t = child_call(st.body[0].value, lambda r: _is_name(r, st.target.id))
+            if t is not False:
+                return ('list', self_attr(st.iter), t)
+        return None
+
+    done = False
+    for st in _body(fn):
+        if done:
+            raise Unrecognised('to_node: statements after return')
+        if isinstance(st, ast.Assign) and len(st.targets) == 1 and _is_name(st.targets[0], 'exclude') and excl_expr(st.value) is not None:
+            excl |= set(excl_expr(st.value))
+            continue
+        if isinstance(st, ast.Assign) and len(st.targets) == 1 and isinstance(st.targets[0], ast.Name) and _is_super_call(st.value, 'to_node'):
+            c = st.value
+            kw = {k.arg: k.value for k in c.keywords}
+            if node_var[0] is not None or len(c.args) < 2 or not _is_name(c.args[0], 'doc') or not _is_name(c.args[1], 'tag') or \
+                    not _is_name(kw.get('ns_key'), 'ns_key') or not _is_name(kw.get('parent'), 'parent') or excl_expr(kw.get('exclude')) is None:
+                raise Unrecognised('to_node: the call of the generic writer is not the plain delegation')
+            excl |= set(excl_expr(kw.get('exclude')))
+            node_var[0] = st.targets[0].id
+            continue
+        if node_var[0] is None:
+            raise Unrecognised('to_node: work before the generic writer at line %d' % st.lineno)
+        if isinstance(st, ast.Assign) and isinstance(st.value, ast.Call) and isinstance(st.value.func, ast.Attribute) and \
+                st.value.func.attr == 'get' and isinstance(st.value.func.value, ast.Attribute) and st.value.func.value.attr == '_child_xml_ns_key':
+            continue
+        ll = list_loop(st)
+        if ll:
+            emis.append(ll)
+            continue
+        if isinstance(st, ast.If) and not st.orelse and len(st.body) == 1:
+            inner = list_loop(st.body[0])
+            if inner and all(self_attr(x) in (None, inner[1]) for x in ast.walk(st.test) if isinstance(x, ast.Attribute)) and \
+                    _only_names(st.test, {'self', 'len'}):
+                emis.append(inner)
+                continue
+            # if self.F is not None [and 'F' not in exclude]: self.F.to_node(doc, 'TAG', ..., parent=node)
+            if isinstance(st.body[0], ast.Expr):
+                call = st.body[0].value
+                recv = self_attr(call.func.value) if isinstance(call, ast.Call) and isinstance(call.func, ast.Attribute) else None
+                t = child_call(call, lambda r: self_attr(r) == recv) if recv else False
+                tests = st.test.values if isinstance(st.test, ast.BoolOp) and isinstance(st.test.op, ast.And) else [st.test]
+                ok = bool(tests)
+                for tt in tests:
+                    if isinstance(tt, ast.Compare) and len(tt.ops) == 1 and self_attr(tt.left) == recv and isinstance(tt.ops[0], ast.IsNot) and \
+                            isinstance(tt.comparators[0], ast.Constant) and tt.comparators[0].value is None:
+                        continue
+                    if isinstance(tt, ast.Compare) and len(tt.ops) == 1 and _const_str(tt.left) == recv and isinstance(tt.ops[0], ast.NotIn) and \
+                            _is_name(tt.comparators[0], 'exclude'):
+                        continue
+                    ok = False
+                if recv and t not in (False, None) and ok:
+                    emis.append(('single', recv, t))
+                    continue
+        if isinstance(st, ast.Return) and _is_name(st.value, node_var[0]):
+            done = True
+            continue
+        raise Unrecognised('to_node: unrecognised statement at line %d' % st.lineno)
+    if not done:
+        raise Unrecognised('to_node: no return of the node')
+    return excl, emis
+
+
+def hidden_child_class(cls, attr):
+    """class of the objects kept in the hand-managed list `self.<attr>`: the unique Serializable subclass X for which a method of
+    the class that touches self.<attr> calls X.from_node(...); None if that is not unique"""
+    from sarpy.io.xml.base import Serializable
+    found = set()
+    for b in cls.__mro__:
+        if b is Serializable:
+            break
+        mod = sys.modules.get(b.__module__)
+        for name, f in b.__dict__.items():
+            f = getattr(f, 'fset', None) or getattr(f, '__func__', f)
+            if not inspect.isfunction(f):
+                continue
+            fn = _fn_ast(f)
+            if fn is None:
+                continue
+            touches = any(isinstance(n, ast.Attribute) and _is_name(n.value, 'self') and n.attr == attr for n in ast.walk(fn))
+            if not touches:
+                continue
+            for n in ast.walk(fn):
+                if isinstance(n, ast.Call) and isinstance(n.func, ast.Attribute) and n.func.attr == 'from_node' and isinstance(n.func.value, ast.Name):
+                    x = b if n.func.value.id in ('self', 'cls') else getattr(mod, n.func.value.id, None)
+                    if inspect.isclass(x) and issubclass(x, Serializable):
+                        found.add(x)
+    return found.pop() if len(found) == 1 else None
+
+
+_ARRAY_SHAPES = {}
+
+
+def array_shape(ext):
+    """an array class below SerializableArray as the model sees it: (tags of read-only text children written in FRONT of the
+    entries, reasons why it cannot be modelled).  Recognised to_node override (everything else is a reason):
+        anode = super(C, self).to_node(doc, tag, ns_key=ns_key, parent=parent, ...)
+        if anode is None: return None
+        n = create_text_node(doc, 'TAG' [if ns_key is None else '{}:TAG'.format(ns_key)], <text>, parent=anode)
+        anode.remove(n); anode.insert(0, n)
+        return anode
+    (from_node of SerializableArray reads the child_tag children only, so such a child is derived, not stored.)"""
+    if ext is None or ext in _ARRAY_SHAPES:
+        return _ARRAY_SHAPES.get(ext, ([], []))
+    front, reasons = [], []
+    ov = array_overrides(ext)
+    try:
+        if 'from_node' in ov:
+            raise Unrecognised('from_node is overridden')
+        if 'to_node' in ov:
+            from sarpy.io.xml.base import SerializableArray
+            b = next(b for b in ext.__mro__ if b is not SerializableArray and 'to_node' in b.__dict__)
+            fn = _fn_ast(b.__dict__['to_node'])
+            if fn is None:
+                raise Unrecognised('to_node: source not available')
+            node_var, pending, moved = None, {}, {}
+            done = False
+            for st in _body(fn):
+                if done:
+                    raise Unrecognised('to_node: statements after return')
+                if isinstance(st, ast.Assign) and len(st.targets) == 1 and isinstance(st.targets[0], ast.Name) and _is_super_call(st.value, 'to_node') \
+                        and node_var is None:
+                    c = st.value
+                    kw = {k.arg: k.value for k in c.keywords}
+                    if len(c.args) >= 2 and _is_name(c.args[0], 'doc') and _is_name(c.args[1], 'tag') and _is_name(kw.get('ns_key'), 'ns_key') and \
+                            _is_name(kw.get('parent'), 'parent'):
+                        node_var = st.targets[0].id
+                        continue
+                if node_var is None:
+                    raise Unrecognised('to_node: work before the generic array writer')
+                if isinstance(st, ast.If) and not st.orelse and len(st.body) == 1 and isinstance(st.body[0], ast.Return) and \
+                        isinstance(st.test, ast.Compare) and _is_name(st.test.left, node_var) and isinstance(st.test.ops[0], ast.Is):
+                    continue                                       # an empty array writes nothing
+                if isinstance(st, ast.Assign) and len(st.targets) == 1 and isinstance(st.targets[0], ast.Name) and isinstance(st.value, ast.Call) and \
+                        _is_name(st.value.func, 'create_text_node'):
+                    c = st.value
+                    kw = {k.arg: k.value for k in c.keywords}
+                    tagx = c.args[1] if len(c.args) >= 2 else None
+                    if isinstance(tagx, ast.IfExp):
+                        tagx = tagx.body
+                    if _const_str(tagx) is not None and _is_name(kw.get('parent'), node_var):
+                        pending[st.targets[0].id] = tagx.value
+                        continue
+                if isinstance(st, ast.Expr) and isinstance(st.value, ast.Call) and isinstance(st.value.func, ast.Attribute) and \
+                        _is_name(st.value.func.value, node_var):
+                    c = st.value
+                    if c.func.attr == 'remove' and len(c.args) == 1 and isinstance(c.args[0], ast.Name) and c.args[0].id in pending:
+                        moved[c.args[0].id] = 'removed'
+                        continue
+                    if c.func.attr == 'insert' and len(c.args) == 2 and isinstance(c.args[0], ast.Constant) and c.args[0].value == 0 and \
+                            isinstance(c.args[1], ast.Name) and moved.get(c.args[1].id) == 'removed':
+                        moved[c.args[1].id] = 'front'
+                        front.insert(0, pending[c.args[1].id])
+                        continue
+                if isinstance(st, ast.Return) and _is_name(st.value, node_var):
+                    done = True
+                    continue
+                raise Unrecognised('to_node: unrecognised statement at line %d' % st.lineno)
+            if not done or any(moved.get(v) != 'front' for v in pending):
+                raise Unrecognised('to_node: a text child is not moved to the front')
+    except Unrecognised as e:
+        reasons.append('array class overrides %s in a shape the translator does not recognise (%s)' % ('/'.join(ov), e))
+        front = []
+    _ARRAY_SHAPES[ext] = (front, reasons)
+    return _ARRAY_SHAPES[ext]
+
+
+# Hook for the C05X builder: classes whose to_node / from_node are VALUE codecs (they re-encode numbers, they are not a
+# re-arrangement of rows).  They stay opaque in this model; once Spec.XmlFmt carries a model of the codec with its own round-trip
+# lemma (equivalence "as coefficient arrays with absent terms read as zero"), the pairing below is where it plugs in: the walk
+# already pairs each of them with its XSD type (listed per run in `codec_hook_pairs`).  Matched by class name along the MRO.
+CODEC_HOOKS = {
+    'Poly1DType': 'polynomial coefficient array (order1 attribute + Coef elements with exponent1)',
+    'Poly2DType': 'polynomial coefficient array (order1/order2 attributes + Coef elements with exponent1/exponent2)',
+    'LineType': 'indexed array of Endpoint elements (CPHD GeoInfo)',
+    'PolygonType': 'indexed array of Vertex elements (CPHD GeoInfo)',
+    'LUTInfoType': 'lookup-table value arrays (SIDD)',
+    '_CustomType': 'filter coefficient array (SIDD)',
+}
+
+
+def codec_hook(cls):
+    from sarpy.io.xml.base import Serializable
+    if not overrides(cls):
+        return None
+    for b in cls.__mro__:
+        if b is Serializable:
+            break
+        if b.__name__ in CODEC_HOOKS and ('to_node' in b.__dict__ or 'from_node' in b.__dict__):
+            return CODEC_HOOKS[b.__name__]
+    return None
+
+
+_SHAPES = {}
+
+
+class Shape:
+    """a class as the model sees it: rows in OUTPUT order (hidden list rows included), legacy guards, and the reasons why it
+    cannot be modelled (empty = modellable)"""
+    def __init__(self):
+        self.rows, self.divert_if, self.divert_unless, self.reasons, self.notes = [], [], [], [], []
+        self.hook = None
+
+
+def class_shape(cls):
+    if cls in _SHAPES:
+        return _SHAPES[cls]
+    sh = Shape()
+    rows = class_rows(cls)
+    sh.rows = rows
+    ov = overrides(cls)
+    if ov:
+        try:
+            read_lists, dif, dun, notes = recognise_from_node(cls)
+            excl, emis = recognise_to_node(cls)
+            sh.notes = notes
+            by_field = {r.field: r for r in rows}
+            out = [r for r in rows if r.field not in excl]
+            emitted = set()
+            for kind, name, tag in emis:
+                if kind == 'list':
+                    key = next((k for k in read_lists if k == name or k == name.lstrip('_')), None)
+                    if key is None:
+                        raise Unrecognised('to_node writes the list self.%s that from_node does not read' % name)
+                    rtag = read_lists[key]
+                    if tag is not None and tag != rtag:
+                        raise Unrecognised('list %s is read from %s children and written as %s' % (key, rtag, tag))
+                    if key in by_field and by_field[key] in out:
+                        raise Unrecognised('list %s is written by the generic writer and by hand' % key)
+                    r = Row(field=key, tag=rtag, kind='list', required=False, cls=hidden_child_class(cls, name), child_tag=rtag,
+                            nskey=cls._child_xml_ns_key.get(key, None), descr='hand-managed list', hidden=True, write_self=(tag is None))
+                    out.append(r)
+                    emitted.add(key)
+                else:
+                    r = by_field.get(name)
+                    if r is None or name not in excl or r.kind not in ('child', 'prim', 'propstored') or tag != r.tag:
+                        raise Unrecognised('to_node writes self.%s by hand in a way the table cannot express' % name)
+                    out.append(r)
+                    emitted.add(name)
+            for k in read_lists:
+                if k not in emitted:
+                    raise Unrecognised('from_node reads the list %s that to_node never writes' % k)
+            for f in excl:
+                if f in by_field and f not in emitted and f not in read_lists:
+                    raise Unrecognised('field %s is excluded from the generic writer and not written by hand' % f)
+            sh.rows = out
+            sh.divert_if, sh.divert_unless = dif, dun
+        except Unrecognised as e:
+            hook = codec_hook(cls)
+            if hook:
+                sh.reasons.append('class overrides %s with a value codec: %s - hook for the C05X model' % ('/'.join(ov), hook))
+                sh.hook = hook
+            else:
+                sh.reasons.append('class overrides %s in a shape the translator does not recognise (%s)' % ('/'.join(ov), e))
+    for r in sh.rows:
+        if r.kind == 'other':
+            sh.reasons.append('field %s is not descriptor-driven (%s)' % (r.field, r.descr))
+        if r.kind == 'list' and r.hidden and r.cls is None:
+            sh.notes.append('class of the hand-managed list %s not identified: its elements are opaque' % r.field)
+    _SHAPES[cls] = sh
+    return sh
 
 
 def all_classes():
@@ -934,6 +1491,8 @@ class Pair:
         self.cls_key = None      # identity of the class side (class, namespace key) / array pseudo-class
         self.ct = None           # the complex type object
         self.rowinfo = None      # [(lean tag, row kind, child class key | None)]
+        self.guards = ((), ())   # (divert_if, divert_unless) Clark names
+        self.notes = []
 
     @property
     def key(self):
@@ -944,7 +1503,7 @@ def effective_rows(cls, ns_key, nsmap):
     """class rows with tags resolved to Clark names the way to_node/from_node resolve them.
        element rows: namespace = _child_xml_ns_key[field] if present else the inherited ns_key (base.py:985-988, 1161-1166);
        attribute rows: namespace only from _child_xml_ns_key (base.py:998-1000, 1156-1157)."""
-    rows = class_rows(cls)
+    rows = class_shape(cls).rows
     out = []
     for r in rows:
         if r.kind == 'attr':
@@ -958,7 +1517,12 @@ def effective_rows(cls, ns_key, nsmap):
     return out
 
 
-def conforms_py(table, model, strict):
+def required_tags(groups):
+    """mirror of Spec.XsdFmt.requiredTags: element particles standing directly in the top-level sequence with minOccurs >= 1"""
+    return [g[1] for g in groups if g[0] == 'elem' and g[2] >= 1]
+
+
+def conforms_py(table, model, strict, guards=((), ())):
     """Python mirror of Sarpy.Spec.XsdFmt.conformsB / conformsWeakB (the Lean `decide` is the authority; this mirror only
     selects which statement to emit and words the reasons).  table: list of dict(tag, kind attr/single/multi);
     model: (attrs [(tag, required)], groups, simple).  Returns (ok, reasons, extra) with reasons = [(kind, item, text)]:
@@ -997,9 +1561,15 @@ def conforms_py(table, model, strict):
                 for e in alt:
                     bounds[e[0]] = e[2]
     for t in erows:
-        if t['tag'] in bounds and t['kind'] == 'single' and (bounds[t['tag']] is None or bounds[t['tag']] > 1):
+        if t['tag'] in bounds and t['kind'] in ('single', 'derived') and (bounds[t['tag']] is None or bounds[t['tag']] > 1):
             reasons.append(('element-dropped', '.' + local(t['tag']), 'element %s may occur %s times but the row holds one value' % (
                 local(t['tag']), 'unbounded' if bounds[t['tag']] is None else bounds[t['tag']])))
+    for t in guards[0]:
+        if t in mtags:
+            reasons.append(('legacy-guard', '.' + local(t), 'from_node takes its legacy path when %s is present, and the type allows %s' % (local(t), local(t))))
+    for t in guards[1]:
+        if t not in required_tags(groups):
+            reasons.append(('legacy-guard', '.' + local(t), 'from_node takes its legacy path when %s is absent, and the type does not require %s' % (local(t), local(t))))
     ok = not reasons
     if strict and extra:
         ok = False
@@ -1052,14 +1622,14 @@ class Walker:
         ns_key = 'default' if self.ver['family'].startswith('sidd') else None
         # SICD/CPHD/CRSD from_xml_string pass ns_key 'default' as well when the document declares a default namespace;
         # tags are then looked up in that namespace either way.  For the walk, element names are namespace-resolved with 'default'.
-        self.visit(self.ver['cls'], root.type, 'default', self.ver['tag'])
+        self.visit(self.ver['cls'], root.type, 'default', self.ver['tag'], q(self.ver['ns'], self.ver['tag']))
         return self
 
     def type_label(self, t):
         n = t.name
         return local(n) if not n.startswith('anon:') else n
 
-    def visit(self, cls, ct, ns_key, path):
+    def visit(self, cls, ct, ns_key, path, own_tag=None):
         name = cls.__name__
         tname = self.type_label(ct) if ct is not None else '?'
         key = (cls.__module__ + '.' + name, tname, ns_key)
@@ -1074,11 +1644,14 @@ class Walker:
             p.status = 'outside_fragment'
             p.reasons.append('class paired with simple type %s' % tname)
             return
-        ov = overrides(cls)
+        shape = class_shape(cls)
         rows = effective_rows(cls, ns_key, self.nsmap)
-        outside = []
-        if ov:
-            outside.append('class overrides ' + '/'.join(ov))
+        outside = list(shape.reasons)
+        p.notes = list(shape.notes)
+
+        def gtag(t):
+            return q(resolve_ns(self.nsmap, cls._child_xml_ns_key.get(t, ns_key)), t)
+        p.guards = (tuple(gtag(t) for t in shape.divert_if), tuple(gtag(t) for t in shape.divert_unless))
         try:
             groups = flatten_model(ct)
         except Outside as e:
@@ -1096,12 +1669,16 @@ class Walker:
                     ns_asym.add(r.tag)
                     tag = q(resolve_ns(self.nsmap, ns_key), r.tag)
                 table.append(dict(tag=tag, kind='attr', field=r.field, required=r.required))
-            elif r.kind in ('prim', 'child', 'complex', 'array', 'farray'):
+            elif r.kind in ('prim', 'child', 'complex', 'array', 'farray', 'propstored'):
                 table.append(dict(tag=tag, kind='single', field=r.field, required=r.required))
             elif r.kind in ('list', 'primlist', 'params'):
                 table.append(dict(tag=ctag, kind='multi', field=r.field, required=r.required))
-            else:
-                outside.append('field %s is not descriptor-driven (%s)' % (r.field, r.descr))
+                if r.write_self and own_tag is not None and own_tag != ctag:
+                    outside.append('the hand-managed list %s is read from %s children and written under the element\'s own tag %s' % (
+                        r.field, local(ctag), local(own_tag)))
+            elif r.kind == 'derived':
+                table.append(dict(tag=tag, kind='derived', field=r.field, required=r.required))
+            # kind 'other': already among shape.reasons
         p.table = table
         if groups is not None:
             groups = order_alternatives(groups, [t['tag'] for t in table if t['kind'] != 'attr'])
@@ -1109,8 +1686,14 @@ class Walker:
         for r, tag, ctag, k in rows:
             if r.kind in ('child',):
                 p.rowinfo.append((tag, 'class', (r.cls, k)))
+            elif r.kind == 'list' and r.cls is None:
+                p.rowinfo.append((ctag, 'opaque', None))
             elif r.kind == 'list':
                 p.rowinfo.append((ctag, 'class', (r.cls, k)))
+            elif r.kind == 'derived':
+                p.rowinfo.append((tag, 'leaf', None))
+            elif r.kind == 'propstored':
+                p.rowinfo.append((tag, 'opaque', None))
             elif r.kind == 'array':
                 p.rowinfo.append((tag, 'class', ('array', r.descr, r.size_attr, ctag, r.cls, k)))
             elif r.kind == 'prim':
@@ -1124,8 +1707,8 @@ class Walker:
         attrs = [(a.qname, a.use == 'required') for a in ct.attrs if a.use != 'prohibited']
         p.model = (attrs, groups, ct.simple is not None)
         if groups is not None:
-            ok_s, reasons, extra = conforms_py(table, p.model, True)
-            ok_w, _, _ = conforms_py(table, p.model, False)
+            ok_s, reasons, extra = conforms_py(table, p.model, True, p.guards)
+            ok_w, _, _ = conforms_py(table, p.model, False, p.guards)
             reasons = [(('namespace-changed', r[1], 'attribute %s is read unqualified but written with the inherited namespace key %s (base.py:998 vs 1156)' % (r[1][1:], ns_key))
                         if (r[0] == 'attribute-dropped' and r[1][1:] in ns_asym) else r) for r in reasons]
             p.extra_rows = [local(t) for t in extra]
@@ -1137,8 +1720,10 @@ class Walker:
             elif ok_w:
                 p.status = 'conforming_weak'
                 p.reasons = ['rows without a particle: ' + ', '.join(p.extra_rows)]
-            elif family_of(self.ver) == 'sicd0' and all(r[0] in ('element-dropped', 'attribute-dropped') and 'has no row' in r[2] for r in reasons):
-                # DESIGN.md 6/C06: for SICD 0.x the round trip is claimed only for what the current classes model
+            elif family_of(self.ver) == 'sicd0' and all((r[0] in ('element-dropped', 'attribute-dropped') and 'has no row' in r[2]) or r[0] == 'legacy-guard'
+                                                        for r in reasons):
+                # DESIGN.md 6/C06: for SICD 0.x the round trip is claimed only for what the current classes model; a 0.x element that
+                # sends from_node down its legacy (pre-1.0) conversion path is exactly that: converted, not round-tripped
                 p.status = 'outside_fragment'
                 p.reasons = ['SICD 0.x content the current class does not model (listed, not claimed): ' + '; '.join(r[2] for r in reasons)]
             else:
@@ -1154,6 +1739,8 @@ class Walker:
         self._collect_elems(ct.content, declared)
         for r, tag, ctag, k in rows:
             if r.kind in ('child', 'list', 'array'):
+                if r.cls is None:
+                    continue
                 look = tag if r.kind != 'list' else ctag
                 e = declared.get(look)
                 if e is None:
@@ -1167,11 +1754,11 @@ class Walker:
                         ce = inner.get(ctag)
                         self.array_pair(r, t, tag, ctag, ce, path + '/' + r.tag, k)
                         if ce is not None and isinstance(ce.type, ComplexType):
-                            self.visit(r.cls, ce.type, k, path + '/' + r.tag + '/' + r.child_tag)
+                            self.visit(r.cls, ce.type, k, path + '/' + r.tag + '/' + r.child_tag, ctag)
                         elif ce is not None:
-                            self.visit(r.cls, ce.type, k, path + '/' + r.tag + '/' + r.child_tag)
+                            self.visit(r.cls, ce.type, k, path + '/' + r.tag + '/' + r.child_tag, ctag)
                     continue
-                self.visit(r.cls, t, k, path + '/' + (r.tag if r.kind != 'list' else r.child_tag))
+                self.visit(r.cls, t, k, path + '/' + (r.tag if r.kind != 'list' else r.child_tag), look)
 
     def array_pair(self, r, t, tag, ctag, ce, path, k=None):
         """SerializableArray container: pseudo class with rows [attr size, multi child_tag]"""
@@ -1190,11 +1777,17 @@ class Walker:
         table = []
         if r.size_attr:
             table.append(dict(tag=r.size_attr, kind='attr', field='size', required=True))
+        front, areasons = array_shape(r.ext)
+        for ft in front:
+            # a read-only text child the array class writes in front of its entries (SegmentList/NumSegments)
+            ftq = q(nsof(ctag), ft)
+            table.append(dict(tag=ftq, kind='derived', field=ft, required=True))
+            p.rowinfo.append((ftq, 'leaf', None))
         table.append(dict(tag=ctag, kind='multi', field='array', required=True))
         p.table = table
-        if array_overrides(ext):
+        if areasons:
             p.status = 'outside_fragment'
-            p.reasons = ['array class overrides ' + '/'.join(array_overrides(ext))]
+            p.reasons = list(areasons)
             return
         try:
             groups = flatten_model(t)
@@ -1242,7 +1835,7 @@ class Walker:
         def opaque_id():
             fresh[0] += 1
             return fresh[0]
-        classes = {0: '⟨0, [], []⟩'}
+        classes = {0: '⟨0, [], [], [], []⟩'}
         types = {1: '⟨1, ⟨[], []⟩, []⟩'}
         pairs = [(0, 1)]
         opaque_names = sorted({p.cls for p in self.order if p.cls_key is not None and not good.get(p.cls_key, False)})
@@ -1279,7 +1872,8 @@ class Walker:
                 if (cc_id, ct_id) not in pairs:
                     pairs.append((cc_id, ct_id))
             if c not in classes:
-                classes[c] = '⟨%d, %s, [%s]⟩' % (c, lean_table(p.table, intern), ', '.join('(%d, %d)' % x for x in cchildren))
+                classes[c] = '⟨%d, %s, [%s], %s, %s⟩' % (c, lean_table(p.table, intern), ', '.join('(%d, %d)' % x for x in cchildren),
+                                                         lean_names(p.guards[0], intern), lean_names(p.guards[1], intern))
             if t not in types:
                 types[t] = '⟨%d, %s, [%s]⟩' % (t, lean_model(p.model, intern), ', '.join('(%d, %d)' % x for x in tchildren))
             if (c, t) not in pairs:
@@ -1300,10 +1894,14 @@ class Walker:
 
 # ------------------------------------------------------------------------------------------------- Lean emission
 
+def lean_names(tags, intern):
+    return '[' + ', '.join(str(intern(t)) for t in tags) + ']'
+
+
 def lean_table(table, intern):
     rows = []
     for t in table:
-        k = {'attr': '.attr', 'single': '.single', 'multi': '.multi'}[t['kind']]
+        k = {'attr': '.attr', 'single': '.single', 'multi': '.multi', 'derived': '.derived'}[t['kind']]
         rows.append('⟨%d, %s⟩' % (intern(t['tag']), k))
     return '[' + ', '.join(rows) + ']'
 
@@ -1356,13 +1954,18 @@ def generate(out_path, write=True):
         cnt = {'conforming': 0, 'conforming_weak': 0, 'outside_fragment': 0, 'nonconforming': 0}
         for p in w.order:
             cnt[p.status] += 1
-            rec = {'version': p.label, 'class': p.cls, 'type': p.type_name, 'path': p.path, 'status': p.status, 'reasons': p.reasons}
+            rec = {'version': p.label, 'class': p.cls, 'type': p.type_name, 'path': p.path, 'status': p.status, 'reasons': p.reasons,
+                   'notes': p.notes}
+            hk = _SHAPES[p.pycls].hook if p.pycls in _SHAPES else None
+            if hk and p.status == 'outside_fragment':
+                rec['hook'] = hk
             summary['pairs'].append(rec)
             if p.status == 'outside_fragment' or p.model is None or p.model[1] is None:
                 listing.append('("%s", "%s", "%s", "%s")' % (p.label, p.cls, p.type_name, '; '.join(p.reasons).replace('"', "'")[:300]))
                 continue
             tt, mm = lean_table(p.table, intern), lean_model(p.model, intern)
-            h = hashlib.sha1((tt + '|' + mm).encode()).hexdigest()[:10]
+            gi, gu = lean_names(p.guards[0], intern), lean_names(p.guards[1], intern)
+            h = hashlib.sha1((tt + '|' + mm + ('|' + gi + '|' + gu if (p.guards[0] or p.guards[1]) else '')).encode()).hexdigest()[:10]
             nm = 'p_' + ident(p.cls.split('.', 1)[-1]) + '_' + h
             rec['obligation'] = nm
             rec['keys'] = p.keys
@@ -1371,7 +1974,12 @@ def generate(out_path, write=True):
                 defs[nm]['keys'] = sorted(set(defs[nm]['keys']) | set(p.keys))
                 continue
             defs[nm] = {'versions': [p.label], 'status': p.status, 'cls': p.cls, 'type': p.type_name, 'tt': tt, 'mm': mm,
-                        'reasons': p.reasons, 'keys': list(p.keys)}
+                        'reasons': p.reasons, 'keys': list(p.keys), 'gi': gi, 'gu': gu, 'guarded': bool(p.guards[0] or p.guards[1]),
+                        'features': sorted({t['kind'] for t in p.table if t['kind'] == 'derived'} |
+                                           ({'guards'} if (p.guards[0] or p.guards[1]) else set()) |
+                                           ({'override'} if overrides(p.pycls) else set()) |
+                                           ({'stored-property'} if p.pycls is not None and hasattr(p.pycls, '_fields') and any(
+                                               r.kind == 'propstored' or r.descr == 'property' for r in class_shape(p.pycls).rows) else set()))}
         summary['versions'][w.ver['label']] = cnt
         us = {}
         for where, what in w.schema.unsupported:
@@ -1385,20 +1993,26 @@ def generate(out_path, write=True):
     for nm, d in sorted(defs.items()):
         out.append('-- %s ~ %s   [%s]' % (d['cls'], d['type'], ', '.join(d['versions'])))
         args = '%s (%s)' % (d['tt'], d['mm'])
+
+        def stmt(fn):
+            # classes whose from_node override has legacy guards carry the guard condition in the same obligation
+            if d['guarded']:
+                return '(%s %s && guardsOKB %s %s (%s))' % (fn, args, d['gi'], d['gu'], d['mm'])
+            return '%s %s' % (fn, args)
         if d['status'] == 'conforming':
-            out.append('theorem %s : conformsB %s = true := by decide' % (nm, args))
+            out.append('theorem %s : %s = true := by decide' % (nm, stmt('conformsB')))
             conform_thms.append(nm)
         elif d['status'] == 'conforming_weak':
             out.append('-- %s' % '; '.join(d['reasons']))
-            out.append('theorem %s : conformsWeakB %s = true := by decide' % (nm, args))
+            out.append('theorem %s : %s = true := by decide' % (nm, stmt('conformsWeakB')))
             weak_thms.append(nm)
         else:
             out.append('-- NOT conforming: %s' % '; '.join(d['reasons'])[:400])
             if all(k in known for k in d['keys']):
-                out.append('theorem %s_nonconforming : conformsWeakB %s = false := by decide' % (nm, args))
+                out.append('theorem %s_nonconforming : %s = false := by decide' % (nm, stmt('conformsWeakB')))
                 neg_thms.append(nm)
             else:
-                out.append('theorem %s : conformsWeakB %s = true := by decide' % (nm, args))
+                out.append('theorem %s : %s = true := by decide' % (nm, stmt('conformsWeakB')))
                 failing.append(nm)
         out.append('')
     closure_thms = []
@@ -1416,10 +2030,11 @@ def generate(out_path, write=True):
         cl.append('def %s_pairs : List (ClassId × TypeId) := [%s]' % (vn, ', '.join('(%d, %d)' % p for p in pairs)))
         cl.append('theorem %s_closed : closedB %s_classes %s_types %s_pairs = true := by decide +kernel' % (vn, vn, vn, vn))
         cl.append('/-- every tree valid for a listed type of %s round-trips through the class paired with it -/' % w.ver['label'])
-        cl.append('theorem %s_roundtrip (c : ClassId) (ty : TypeId) (hp : (c, ty) ∈ %s_pairs) (t : Xml) (hv : Valid (mkSchema %s_types) ty t) :' % (vn, vn, vn))
-        cl.append('    Valid (mkSchema %s_types) ty (serialize (mkTabs %s_classes) c (parse (mkTabs %s_classes) c t))' % (vn, vn, vn))
-        cl.append('      ∧ Equiv (serialize (mkTabs %s_classes) c (parse (mkTabs %s_classes) c t)) t :=' % (vn, vn))
-        cl.append('  Sarpy.Props.C06.c06_roundtrip_partial _ _ _ %s_closed c ty hp t hv' % vn)
+        cl.append('theorem %s_roundtrip (D : Deriver) (c : ClassId) (ty : TypeId) (hp : (c, ty) ∈ %s_pairs) (t : Xml) (hv : Valid (mkSchema %s_types) ty t)' % (vn, vn, vn))
+        cl.append('    (hb : Bookkept (mkTabsD D %s_classes) c t) :' % vn)
+        cl.append('    Valid (mkSchema %s_types) ty (serialize (mkTabsD D %s_classes) c (parse (mkTabsD D %s_classes) c t))' % (vn, vn, vn))
+        cl.append('      ∧ Equiv (serialize (mkTabsD D %s_classes) c (parse (mkTabsD D %s_classes) c t)) t :=' % (vn, vn))
+        cl.append('  Sarpy.Props.C06.c06_roundtrip_partial D _ _ _ %s_closed c ty hp t hv hb' % vn)
         cl.append('')
         closure_thms.append(vn + '_closed')
         summary['versions'][w.ver['label']]['closure'] = {'classes_listed': len(classes), 'types_listed': len(types), 'pairs': len(pairs), 'opaque_classes': len(opaque_names)}
@@ -1447,6 +2062,16 @@ def generate(out_path, write=True):
         if not (os.path.exists(closed_path) and open(closed_path).read() == closed_text):
             with open(closed_path, 'w') as f:
                 f.write(closed_text)
+    summary['codec_hook_pairs'] = sorted({'%s ~ %s [%s]: %s' % (r['class'], r['type'], r['version'], r['hook']) for r in summary['pairs'] if r.get('hook')})
+    summary['inside_fragment'] = sum(1 for r in summary['pairs'] if r['status'] != 'outside_fragment')
+    summary['outside_by_reason'] = {}
+    for r in summary['pairs']:
+        if r['status'] == 'outside_fragment':
+            why = ('value codec (hook for C05X)' if r.get('hook') else
+                   'SICD 0.x content the current class does not model' if any(x.startswith('SICD 0.x') for x in r['reasons']) else
+                   'override shape not recognised' if any('does not recognise' in x for x in r['reasons']) else
+                   'class paired with a simple type' if any('simple type' in x for x in r['reasons']) else 'other')
+            summary['outside_by_reason'][why] = summary['outside_by_reason'].get(why, 0) + 1
     summary.update({
         'obligations_conforming': len(conform_thms), 'obligations_weak': len(weak_thms),
         'negation_witnesses': len(neg_thms), 'expected_to_fail': failing,
